@@ -20,7 +20,7 @@
 #
 #############################################################################
 
-from dashlive.utils.date_time import from_isodatetime
+from dashlive.utils.date_time import from_isodatetime, to_iso_datetime
 
 from .dash_option import DashOption
 from .types import OptionUsage
@@ -38,6 +38,21 @@ def _errors_from_string(value: str) -> list[tuple[int, str]]:
         items.append((int(code, 10), pos))
     return items
 
+def _errors_to_string(value: list[tuple] | None) -> str:
+    """
+    The inverse of _errors_from_string: <code>=<num|isoDateTime>,..
+    """
+    if not value:
+        return ''
+    items: list[str] = []
+    for code, pos in value:
+        if pos is None:
+            pos = ''
+        elif not isinstance(pos, int):
+            pos = to_iso_datetime(pos)
+        items.append(f'{code}={pos}')
+    return ','.join(items)
+
 def http_error_factory(use: str, description: str):
     prefix = use[0]
     return DashOption(
@@ -47,6 +62,7 @@ def http_error_factory(use: str, description: str):
         title=f'{description} HTTP errors',
         description=f'Cause an HTTP error to be generated when requesting {description}',
         from_string=_errors_from_string,
+        to_string=_errors_to_string,
         cgi_name=f'{prefix}err',
         cgi_type='<code>=<num|isoDateTime>,..')
 
